@@ -101,6 +101,59 @@ func verifCanaryOrderKeyed(m map[string]int, d map[string]int) int {
 	return n
 }
 
+type verifCanaryItem struct{ Name string }
+
+func verifCanaryOrderExists(m map[string]verifCanaryItem, name string) bool {
+	for _, it := range m {
+		if it.Name == name {
+			return true
+		}
+	}
+	return false
+}
+
+func verifCanaryOrderFoundBreak(m map[string]verifCanaryItem, name string) (found bool) {
+	for _, it := range m {
+		if it.Name == name {
+			found = true
+			break
+		}
+	}
+	return found
+}
+
+func verifCanaryOrderCountBreak(m map[string]verifCanaryItem, name string) (n int) {
+	for _, it := range m {
+		n++
+		if it.Name == name {
+			break
+		}
+	}
+	return n
+}
+
+func verifCanaryOrderConstSet(m map[string]verifCanaryItem, seen map[string]bool) {
+	for _, it := range m {
+		seen[it.Name] = true
+	}
+}
+
+func verifCanaryOrderConstSetRead(m map[string]verifCanaryItem, seen map[string]bool) (dups int) {
+	for _, it := range m {
+		if seen[it.Name] {
+			dups++
+		}
+		seen[it.Name] = true
+	}
+	return dups
+}
+
+func verifCanaryOrderIndexBy(m map[string]verifCanaryItem, byName map[string]verifCanaryItem) {
+	for _, it := range m {
+		byName[it.Name] = it
+	}
+}
+
 func verifCanaryClock() int64 { return time.Now().Unix() }
 
 func verifCanaryClockLogged(ctx context.Context) {
@@ -117,17 +170,23 @@ func verifCanaryClockLeaks(ctx context.Context) int64 {
 
 // canaries that the rule must reject (true) or accept (false)
 var orderCanaryExpect = map[string]bool{
-	"config.verifCanaryOrderFirstWins/maprange#0/order-independent": true,
-	"config.verifCanaryOrderUnsorted/maprange#0/order-independent":  true,
-	"config.verifCanaryOrderShared/maprange#0/order-independent":    true,
-	"config.verifCanaryOrderLast/maprange#0/order-independent":      true,
-	"config.verifCanaryOrderCross/maprange#0/order-independent":     true,
-	"config.verifCanaryOrderCallee/maprange#0/order-independent":    true,
-	"config.verifCanaryClock/effects#deterministic-sources":         true,
-	"config.verifCanaryClockLeaks/effects#deterministic-sources":    true,
-	"config.verifCanaryClockLogged/effects#deterministic-sources":   false,
-	"config.verifCanaryOrderSorted/maprange#0/order-independent":    false,
-	"config.verifCanaryOrderKeyed/maprange#0/order-independent":     false,
+	"config.verifCanaryOrderFirstWins/maprange#0/order-independent":    true,
+	"config.verifCanaryOrderUnsorted/maprange#0/order-independent":     true,
+	"config.verifCanaryOrderShared/maprange#0/order-independent":       true,
+	"config.verifCanaryOrderLast/maprange#0/order-independent":         true,
+	"config.verifCanaryOrderCross/maprange#0/order-independent":        true,
+	"config.verifCanaryOrderCallee/maprange#0/order-independent":       true,
+	"config.verifCanaryClock/effects#deterministic-sources":            true,
+	"config.verifCanaryClockLeaks/effects#deterministic-sources":       true,
+	"config.verifCanaryClockLogged/effects#deterministic-sources":      false,
+	"config.verifCanaryOrderSorted/maprange#0/order-independent":       false,
+	"config.verifCanaryOrderKeyed/maprange#0/order-independent":        false,
+	"config.verifCanaryOrderConstSet/maprange#0/order-independent":     false,
+	"config.verifCanaryOrderConstSetRead/maprange#0/order-independent": true,
+	"config.verifCanaryOrderIndexBy/maprange#0/order-independent":      true,
+	"config.verifCanaryOrderExists/maprange#0/order-independent":       false,
+	"config.verifCanaryOrderFoundBreak/maprange#0/order-independent":   false,
+	"config.verifCanaryOrderCountBreak/maprange#0/order-independent":   true,
 }
 
 func c06Check(cr *checkResult, update bool) {
